@@ -406,6 +406,19 @@ func collectFlow(fn string, fd *ast.FuncDecl, out map[string]*flow) {
 			}
 			return fSeq(stmt(x.Init), expr(x.Cond, false), fAlt(stmt(x.Body), els))
 		case *ast.ForStmt:
+			if x.Post != nil && mentionsRecv(x.Post) {
+				// Go runs Post after `continue`; here Post follows the body, which `cont` leaves early
+				hasCont := false
+				ast.Inspect(x.Body, func(n ast.Node) bool {
+					if b, ok := n.(*ast.BranchStmt); ok && b.Tok == token.CONTINUE {
+						hasCont = true
+					}
+					return true
+				})
+				if hasCont {
+					return fStuck("for-post touching the receiver with continue in the body")
+				}
+			}
 			body := fSeq(expr(x.Cond, false), stmt(x.Body), stmt(x.Post))
 			return fSeq(stmt(x.Init), &flow{op: "block", a: fSeq(&flow{op: "loop", a: body}, expr(x.Cond, false))})
 		case *ast.RangeStmt:
